@@ -150,7 +150,9 @@ def tlc(ctx, module, cfg=None, workers=None, timeout=600, simulate=None, depth=N
     if not os.path.exists(os.path.join(d, cfg)):
         raise Infra("no such cfg " + cfg)
     meta = os.path.join(ctx.work, "meta-%s-%s" % (module, os.urandom(6).hex()))
-    cmd = ["java", "-XX:+UseParallelGC", "-Xss" + xss]
+    jtmp = os.path.join(ctx.work, "jtmp")
+    os.makedirs(jtmp, exist_ok=True)
+    cmd = ["java", "-XX:+UseParallelGC", "-Xss" + xss, "-Djava.io.tmpdir=" + jtmp]
     if dfs:
         cmd.append("-Dtlc2.tool.queue.IStateQueue=StateDeque")
     cmd += list(java_opts)
@@ -272,6 +274,9 @@ def gotest(ctx, pkg, run, env=None, race=False, timeout=900, tags="verif", cases
     e["VERIF_SEED"] = str(ctx.seed)
     e["VERIF_TIER"] = ctx.tier
     e["VERIF_WORK"] = ctx.work
+    # temp files of the test binary (t.TempDir, os.CreateTemp) live in the work dir, not in /tmp
+    e["TMPDIR"] = os.path.join(ctx.work, "gotmp")
+    os.makedirs(e["TMPDIR"], exist_ok=True)
     if cases:
         e["VERIF_CASES"] = cases
     if out:
